@@ -125,7 +125,7 @@ class Scratch:
             open(dst, "w").write(text)
             modname = os.path.splitext(os.path.basename(rel))[0]
             with open(parent, "a") as f:
-                f.write("\n#[cfg(%s)]\nmod %s;\n" % (cfg_attr, modname))
+                f.write("\n#[cfg(%s)]\npub(crate) mod %s;\n" % (cfg_attr, modname))
             installed.append((rel, module_path(rel)))
         return installed
 
